@@ -4,6 +4,7 @@ CONSTANTS
   UseCancel = FALSE
   ApiModes = {FALSE, TRUE}
   UseSecond = TRUE
+  DropDelete = FALSE
   TestRng = FALSE
 SPECIFICATION Spec
 INVARIANT TypeOK
